@@ -33,12 +33,14 @@ Definition dispatch_derive (name : list byte) (a : list (list byte)) : option (l
     (* curve, secret d, blind key, context -> factor, d*factor mod N, factor^-1 mod N, factor * factor^-1 mod N *)
     let q := curve_order (narg a 0) in
     let f := ecdsa_blind_factor (narg a 0) (arg a 2) (arg a 3) in
-    Some [be_min f; be_min (mulm q (narg a 1 mod q) f); be_min (invm q f); be_min (mulm q f (invm q f))]
+    let i := invm q f in
+    Some [be_min f; be_min (mulm q (narg a 1 mod q) f); be_min i; be_min (mulm q f i)]
   else if is name "mulm" then Some [be_min (mulm (narg a 0) (narg a 1) (narg a 2))]
   else if is name "invm" then Some [be_min (invm (narg a 0) (narg a 1))]
   else if is name "ed_blind_factor" then
     let f := ed_blind_factor (arg a 0) (arg a 1) in
-    Some [le_bytes 32 f; le_bytes 32 (invm order_ed25519 f); le_bytes 32 (mulm order_ed25519 f (invm order_ed25519 f))]
+    let i := invm order_ed25519 f in
+    Some [le_bytes 32 f; le_bytes 32 i; le_bytes 32 (mulm order_ed25519 f i)]
   else if is name "ed_mul_add" then
     Some [le_bytes 32 ((le_val (arg a 0) * le_val (arg a 1) + le_val (arg a 2)) mod order_ed25519)]
   else if is name "ed_reduce" then Some [le_bytes 32 (le_val (arg a 0) mod order_ed25519)]
